@@ -387,7 +387,7 @@ def level_advance(ctx, p):
            message="each level must be evaluated on the still-unresolved mask at this iteration's sub size and its array used both for the threshold test and the fill")
     # the first 'previous level' is the plain evaluation on the unmasked grid; the last level fills the remainder
     first = [(t, v) for t, v, n in [(norm_text(n.targets[0]), norm_text(n.value), n) for n in wire.main_line(m) if isinstance(n, ast.Assign) and len(n.targets) == 1] if t == lower_a]
-    okf = len(first) >= 1 and (first[0][1].startswith("func(obj, unmasked_grid") or first[0][1].startswith("func(obj, self.mask.derive_grid.unmasked"))
+    okf = len(first) >= 1 and any(t_ in first[0][1] for t_ in ("func(obj, unmasked_grid", "func(obj, self.mask.derive_grid.unmasked"))   # (possibly already wrapped: Array2D(values=func(..), mask=self.mask).native)
     tail = [n for n in wire.main_line(m) if isinstance(n, ast.Assign) and n.lineno > loop.end_lineno and isinstance(n.value, ast.Call) and norm_text(n.value.func).endswith("array_at_sub_size_from")]
     okl = len(tail) == 1 and norm_text(wire.kw(tail[0].value).get("sub_size")) == "self.sub_steps[-1]" and norm_text(wire.kw(tail[0].value).get("mask")) == lower_m
     ctx.ob(rule, m.key + ":first-last", bool(okf) and okl, where=m, node=tail[0] if tail else m.node, construct=f"first {first[:2]}; last {norm_text(tail[0].value)[:120] if tail else None}",
